@@ -313,8 +313,9 @@ def load_known():
 
 # ----------------------------------------------------------------------------- the run context
 class Ctx:
-    def __init__(self, prop, tier, seed):
+    def __init__(self, prop, tier, seed, report_as=None):
         self.prop, self.tier, self.seed = prop, tier, seed
+        self.report_as = report_as or prop     # id used in VIOLATION lines, known findings, evidence
         self.t0 = time.time()
         self.rng = Rng(seed)
         self.violations = []     # (key, text, replay_obj, found_input)
@@ -359,18 +360,19 @@ class Ctx:
 
     # --- finish
     def finish(self, level="proof", rule="", trusted=None, extra=None):
-        known = [k for k in load_known() if k["property"] == self.prop]
+        rid = self.report_as
+        known = [k for k in load_known() if k["property"] in (rid, self.prop)]
         unlisted = []
         printed = set()
         for (key, text, replay, found) in self.violations:
             k = next((k for k in known if k["key"] == key), None)
             if k is not None:
                 if key not in printed:
-                    print("KNOWN-FINDING: property=%s %s (%s)" % (self.prop, k["text"] or text, key))
+                    print("KNOWN-FINDING: property=%s %s (%s)" % (rid, k["text"] or text, key))
                     printed.add(key)
             else:
                 unlisted.append((key, text, replay, found))
-        rdir = os.path.join(ROOT, "replays", self.prop)
+        rdir = os.path.join(os.environ.get("VERIF_REPLAYS", os.path.join(ROOT, "replays")), self.prop)
         seen = set()
         nviol = 0
         for (key, text, replay, found) in unlisted:
@@ -383,10 +385,10 @@ class Ctx:
             os.makedirs(rdir, exist_ok=True)
             fn = os.path.join(rdir, re.sub(r"[^A-Za-z0-9_.-]", "_", key)[:80] + ".json")
             with open(fn, "w") as f:
-                json.dump({"property": self.prop, "key": key, "text": text, "replay": replay,
+                json.dump({"property": rid, "part": self.prop, "key": key, "text": text, "replay": replay,
                            "seed": self.seed, "tier": self.tier,
                            "how_to_replay": "./check %s --replay %s" % (self.prop, os.path.relpath(fn, ROOT))}, f, indent=1)
-            print("VIOLATION property=%s replay=%s%s" % (self.prop, os.path.relpath(fn, ROOT),
+            print("VIOLATION property=%s replay=%s%s" % (rid, os.path.relpath(fn, ROOT),
                                                          "" if found else " no-failing-input-found"))
             print("  " + text[:300])
         self.cov["distinct_nontrivial"] = len(self.cells)
@@ -396,7 +398,7 @@ class Ctx:
             self.cov["trusted_base"] = trusted
         if extra:
             self.cov.update(extra)
-        ev = {"property_id": self.prop, "tier": self.tier, "seed": self.seed, "level": level,
+        ev = {"property_id": rid, "part": self.prop, "tier": self.tier, "seed": self.seed, "level": level,
               "coverage": self.cov, "assumptions": self.assumptions,
               "wall_s": round(time.time() - self.t0, 2), "violations": nviol,
               "known_findings_reported": sorted(printed), "notes": self.notes}
